@@ -148,6 +148,23 @@ def uses_any(e, binders):
     return hit[0]
 
 
+def extracted_uses_shadowing_local(src, out):
+    """The known class judged on the text that was ACTUALLY extracted (garden may widen the selection to the enclosing
+    expression): does the body of the new function mention a name that is both a top-level function and a local binder
+    (let / pattern / parameter / loop variable) of the original program?"""
+    import re
+    m = re.search(r"(?m)^fun %s\(.*?^}\n" % re.escape(R.FRESH), out, re.S)
+    if not m:
+        return False
+    body = m.group(0)
+    fnames = set(re.findall(r"(?m)^fun (\w+)\(", src))
+    locals_ = set(re.findall(r"\blet (\w+)", src)) | set(re.findall(r"\bSome\((\w+)\) =>", src)) | \
+        set(re.findall(r"\bfor (\w+) in\b", src)) | set(x for ps in re.findall(r"\bfun\w*\s*\w*\(([^)]*)\)", src)
+                                                          for x in re.findall(r"(\w+)(?:\s*:[^,]*)?", ps))
+    both = fnames & locals_
+    return any(re.search(r"\b%s\b" % re.escape(n), body.split("{", 1)[1]) for n in both)
+
+
 def has_var(e):
     r = [False]
 
@@ -324,7 +341,7 @@ def search(ctx, exe, progs, per_prog):
             viol("C20:extract-%s-unparsable:%s" % (short, m["kind"]),
                  "%s on the pure %s expression gives a program that does not parse: %s" % (m["cmd"], m["kind"], r1[1]),
                  observed=out)
-        elif r0[:3] != r1[:3] and m["cmd"] == "extract-function" and m.get("shadow"):
+        elif r0[:3] != r1[:3] and m["cmd"] == "extract-function" and (m.get("shadow") or extracted_uses_shadowing_local(m["src"], out)):
             # FreeVarsVisitor treats every name that is also a top-level function as global, even when a local shadows it
             viol("C20:extract-function:local-shadows-function",
                  "extract-function does not pass a local variable that has the name of a top-level function as a parameter: "
